@@ -51,6 +51,17 @@ def check_history(res, run, desc):
                  if d['success'] and d['cand'] == w['ld']
                  and d['t'] <= ws['t']]
         good = [d for d in cands if d['base'] == prev]
+        stale_cache = [d for d in good if d.get('used_base') not in (
+            None, d['base'])]
+        if stale_cache and len(stale_cache) == len(good):
+            witness_s = dict(witness)
+            witness_s['write_seq'] = w['seq']
+            res.violation(
+                'stale-result-adopted',
+                f'write #{w["seq"]}: the worker derived the adopted candidate '
+                f'from {stale_cache[0]["used_base"]} (its cached copy of an '
+                f'older input), not from the current input {prev}',
+                witness_s)
         witness_w = dict(witness)
         witness_w['write_seq'] = w['seq']
         witness_w['chain_digests'] = chain[-5:] + [w['ld']]
@@ -86,6 +97,28 @@ def check_history(res, run, desc):
             res.count('stuttering_writes')
         prev = w['ld']
         chain.append(prev)
+    # with only erasing mutators enabled every written content must be a
+    # token subsequence of its predecessor (nothing can come back)
+    if desc.get('erase_only'):
+        prev_toks = refreader.strip_comments(refreader.lex(desc['input'],
+                                                           tolerant=True))
+        for w in writes:
+            if w.get('text') is None:
+                break
+            toks = refreader.strip_comments(refreader.lex(w['text'],
+                                                          tolerant=True))
+            it = iter(prev_toks)
+            if not all(t in it for t in toks):
+                witness_w = dict(witness)
+                witness_w['write_seq'] = w['seq']
+                witness_w['content'] = w['text'][:1500]
+                res.violation(
+                    'stale-result-adopted',
+                    f'write #{w["seq"]} (erase-only run) contains tokens '
+                    f'that its predecessor had already lost', witness_w)
+                break
+            prev_toks = toks
+            res.count('erase_only_writes_checked')
     # file left at exit
     if writes and run.rc == 0:
         if run.out_bytes is None:
@@ -143,18 +176,22 @@ def make_case(r, jobs=None):
     strat = r.choice(['ddmin', 'hierarchical', 'hybrid'])
     j = jobs or r.choice([2, 4, 8, 16])
     opts = ['--strategy', strat, '-j', str(j), '--timeout', '20']
+    erase_only = r.random() < 0.35
+    if erase_only:
+        opts += ['--disable-all', '--erase-node']
     delay = (r.randint(1, 1000), r.choice([300, 2000, 8000])) \
         if r.random() < 0.7 else None
     inj = {'seed': r.randint(0, 10**6), 'prob': r.choice([0.01, 0.05, 0.2]),
            'max_ms': r.choice([1, 2, 5])} if r.random() < 0.7 else None
     desc = {'input': text, 'rules': rules, 'predicate': pred,
-            'strategy': strat, 'jobs': j, 'delay': delay, 'inject': inj}
+            'strategy': strat, 'jobs': j, 'delay': delay, 'inject': inj,
+            'erase_only': erase_only}
     return text, rules, opts, delay, inj, desc
 
 
 def run_case(res, wd, case):
     text, rules, opts, delay, inj, desc = case
-    cfg = {'monitors': MONITORS}
+    cfg = {'monitors': MONITORS, 'write_text': True}
     if inj:
         cfg['delay'] = inj
     run = realrun.run_ddsmt(wd, text, rules, opts=opts, delay=delay,
@@ -229,8 +266,7 @@ def run(ctx):
         ctx.inconclusive_because('too few writes checked')
     if ctx.counters.get('runs_failed', 0) > ctx.counters.get('runs', 1) // 4:
         ctx.inconclusive_because('too many runs failed for other reasons')
-    if ctx.counters.get('runs_watchdog', 0):
-        ctx.inconclusive_because('a run hit the watchdog')
+    ctx.judge_watchdog('runs')
 
 
 def replay(data):
